@@ -207,7 +207,14 @@ void harness(void) {
 #define PROJ NULL
 #define USRSUB "/unused"
 #endif
+#ifdef NAMELESS
+    /* drop-ins without a configuration name: the project names the files, drop-ins live in <project>.d */
 #if ENTRY == 4
+    e = econf_readConfig(&res, "c", USRSUB, INB(3 * LAYERS + MAXFILES + 1) ? NULL : "", SUFFIX_ARG, "=", "#");
+#else
+    e = econf_readConfigWithCallback(&res, "c", USRSUB, INB(3 * LAYERS + MAXFILES + 1) ? NULL : "", SUFFIX_ARG, "=", "#", the_callback, CBDATA);
+#endif
+#elif ENTRY == 4
     e = econf_readConfig(&res, PROJ, USRSUB, "c", SUFFIX_ARG, "=", "#");
 #else
     e = econf_readConfigWithCallback(&res, PROJ, USRSUB, "c", SUFFIX_ARG, "=", "#", the_callback, CBDATA);
